@@ -47,6 +47,13 @@ func runC14(r *kit.Run) {
 		}
 		c14Hook(r, i, r.Rng("hook", i))
 	}
+	ne := int64(r.Scale(16, 400))
+	for i := int64(0); i < ne && !r.Stopped(); i++ {
+		if !r.Mine(i) {
+			continue
+		}
+		c14EntryRace(r, i, r.Rng("entry", i))
+	}
 	ni := int64(r.Scale(400, 20000))
 	for i := int64(0); i < ni && !r.Stopped(); i++ {
 		if !r.Mine(i) {
@@ -345,6 +352,91 @@ func c14Hook(r *kit.Run, idx int64, rng *rand.Rand) {
 			wg.Done()
 		}
 	})
+}
+
+// c14EntryRace aligns the last Done with the waiter's entry into Wait,
+// over and over, with two long-lived goroutines and spin-waits: a
+// wake-up that is lost between Wait's first look at the counter and its
+// parking shows up as a waiter that never returns (decided at
+// quiescence).
+func c14EntryRace(r *kit.Run, idx int64, rng *rand.Rand) {
+	iters := int64(r.Scale(12000, 60000))
+	procs := []int{2, 4, 16}[rng.IntN(3)]
+	wg := &fun.WaitGroup{}
+	var phase, progress atomic.Int64
+	stop := make(chan struct{})
+	ctx, cancel := context.WithCancel(context.Background())
+	defer cancel()
+	seedA, seedB := rng.Uint64(), rng.Uint64()
+	maxDelay := uint64(1 + rng.IntN(300))
+	r.EvalN(1)
+	var stuck bool
+	var where string
+	kit.WithProcs(procs, func() {
+		sig := make(chan struct{})
+		go func() { // B: the last Done (parked on the channel when idle, so that a stuck state is quiescent)
+			rb := rand.New(rand.NewPCG(seedB, 1))
+			for {
+				select {
+				case <-stop:
+					return
+				case <-sig:
+				}
+				for k := rb.Uint64N(maxDelay); k > 0; k-- {
+					_ = phase.Load()
+				}
+				wg.Done()
+			}
+		}()
+		done := make(chan struct{})
+		go func() { // A: Add, release B, Wait
+			defer close(done)
+			ra := rand.New(rand.NewPCG(seedA, 2))
+			for i := int64(1); i <= iters; i++ {
+				wg.Add(1)
+				phase.Store(i)
+				sig <- struct{}{} // hand-off: both goroutines are runnable now
+				for k := ra.Uint64N(maxDelay); k > 0; k-- {
+					_ = phase.Load()
+				}
+				wg.Wait(ctx)
+				if ctx.Err() != nil {
+					return
+				}
+				progress.Store(i)
+			}
+		}()
+		if !kit.WaitUntil(4*c14Watchdog, func() bool {
+			select {
+			case <-done:
+				return true
+			default:
+				return false
+			}
+		}) {
+			cs, q := kit.Quiesce(c14Watchdog)
+			select {
+			case <-done:
+			default:
+				if q {
+					stuck = true
+					where = fmt.Sprintf("iteration %d of %d: Num()=%d; %v", progress.Load()+1, iters, wg.Num(), cs.Describe())
+				} else {
+					r.Inconclusive("C14 entry race: not finished and not quiescent")
+				}
+			}
+		}
+		cancel()
+		close(stop)
+		<-done
+	})
+	if stuck {
+		r.Violation("C14/entry-race/lost-wakeup", idx, map[string]any{"mode": "Done racing the entry of Wait", "gomaxprocs": procs, "max_spin_delay": maxDelay},
+			"the last Done and the waiter's entry into Wait raced; the counter is zero and the waiter is parked for good at "+where, nil)
+		return
+	}
+	r.Count("entry_race_iterations", progress.Load())
+	r.Distinct(fmt.Sprintf("entry-race|p=%d|d=%s", procs, lenClass(int(maxDelay)/30)))
 }
 
 // c14Invariant checks the counter arithmetic and the negative-Add panic.
